@@ -23,8 +23,8 @@ ASSUMPTIONS = [
     "bracket delimiters 'f' and 'f-…' denote bracket f-strings (a different construct) and are outside the space",
 ]
 
-SYM_ALPHA = list("a1.:#()[]{}\"'`~; \n\t-_,+@*!je é\\^=/")
-PLAIN = set("ae_é")
+SYM_ALPHA = list("a1.:#()[]{}\"'`~; \n\t-_,+@*!je é\\^=/NIfn")
+PLAIN = set("ae_éfn")
 DELIMS = ["", "a", "ab", "aa", "=", "x", "a b", "-", "f-", "fa"]   # 'f-' is an f-string delimiter -> skipped, listed
 CONTENT_ALPHA = ["a", "b", "]", "[", "\n", "\r", "{", "}", "="]
 
